@@ -499,10 +499,11 @@ impl Prop for C11 {
         }
         // a reference that reaches exactly one byte before the start when 4094 / 4095 / 4096 / 4097 bytes have been produced
         // (displacement field 0xFFD..0x1000 territory), for both kinds and the wrapped entry
-        for produced in [4094u32, 4095, 4096, 4097] {
+        // ... with 1..=16 leading literals, so that the final reference falls on every position of its flag group
+        for (produced, lead) in [4094u32, 4095, 4096, 4097].into_iter().flat_map(|p| (1u32..=16).map(move |l| (p, l))) {
             for lz11 in [false, true] {
-                let mut toks = vec![Tok::Lit(7)];
-                let mut left = produced - 1;
+                let mut toks = vec![Tok::Lit(7); lead as usize];
+                let mut left = produced - lead;
                 while left > 0 {
                     let step = if lz11 { left.min(4000) } else { left.min(18) };
                     if step >= 3 {
@@ -534,7 +535,7 @@ impl Prop for C11 {
         }
     }
     fn exhaustive_note(_tier: Tier) -> Option<String> {
-        Some("all inputs of length 0..=3 over 7 interesting byte values; all 256 type bytes; every strict prefix and every single before-start rewrite of 4 fixed streams at 3 entry points each; stored form of every length 0..=8".into())
+        Some("all inputs of length 0..=3 over 7 interesting byte values; all 256 type bytes; every strict prefix and every single before-start rewrite of 4 fixed streams at 3 entry points each; a reference reaching the first byte / one or two bytes before it after exactly 4094..=4097 bytes of output, at every position of its flag group; stored form of every length 0..=8".into())
     }
     fn corpus(seed: u64) -> Vec<Vec<u8>> {
         use proptest::strategy::ValueTree;
